@@ -6,6 +6,7 @@ import (
 
 	"github.com/CloudyKit/jet/v6"
 	"verifh/internal/fw"
+	"verifh/internal/hook"
 	"verifh/internal/jx"
 	"verifh/internal/prog"
 )
@@ -56,6 +57,13 @@ func runProgCase(c *fw.Ctx, idx int, sp *progSpec) {
 	if class, detail := prog.Compare(m, o, false); class != "" {
 		c.Violation(strings.ToLower(sp.id)+":"+class+":"+progShape(fm), "", map[string]interface{}{"mismatch": class, "detail": detail, "model_error": fmt.Sprint(m.Err), "real_error": fmt.Sprint(o.Err)})
 		return
+	}
+	if hook.Available && len(o.StateEvents) > 0 {
+		c.Count("state_probe_pairs", len(o.StateEvents)/2)
+		if mm := o.StateMismatches(); len(mm) > 0 {
+			c.Violation(strings.ToLower(sp.id)+":state-not-restored:"+progShape(fm), "", map[string]interface{}{"hook": "VerifProbe snapshots before/after a construct differ (scope depth, scope, context, content, writer)", "pairs": mm})
+			return
+		}
 	}
 	if sp.post != nil {
 		sp.post(c, p, m, o)
@@ -136,7 +144,7 @@ var c07 = &progSpec{
 	id: "C07",
 	cfg: func(idx int) prog.Cfg {
 		return prog.Cfg{Items: 3, MaxDepth: 3, Ifs: true, Ranges: true, Vars: true, Blocks: idx%2 == 0, Includes: idx%3 == 0, Ctx: true, CondKinds: true, MultiFile: idx%4 == 0, SharedNames: true,
-			Fails: idx%7 == 0, FailAnywhere: idx%7 == 0}
+			Fails: idx%7 == 0, FailAnywhere: idx%7 == 0, StateProbes: idx%2 == 1}
 	},
 	nontriv: func(f map[string]bool, _ *prog.Program) bool {
 		return f["capture-loop-var"] || f["shadow-root"] || f["shadow-local"] || f["set"] || f["if-let"] || f["yield-ctx"] || f["include-ctx"] || f["yield-content-ctx"]
@@ -177,7 +185,7 @@ var c08 = &progSpec{
 var c13 = &progSpec{
 	id: "C13",
 	cfg: func(idx int) prog.Cfg {
-		return prog.Cfg{Items: 3, MaxDepth: 4, Ifs: true, Ranges: true, Vars: true, Blocks: idx%3 != 0, Includes: idx%4 == 0, MultiFile: idx%6 == 0, Try: true, Fails: true, Ctx: true, CondKinds: true, RangeErrs: true, SharedNames: idx%2 == 0}
+		return prog.Cfg{Items: 3, MaxDepth: 4, Ifs: true, Ranges: true, Vars: true, Blocks: idx%3 != 0, Includes: idx%4 == 0, MultiFile: idx%6 == 0, Try: true, Fails: true, Ctx: true, CondKinds: true, RangeErrs: true, SharedNames: idx%2 == 0, StateProbes: idx%2 == 1}
 	},
 	nontriv: func(f map[string]bool, _ *prog.Program) bool {
 		return f["try"] && f["fail"] && (f["range"] || f["yield"] || f["if-let"] || f["include"])
